@@ -33,6 +33,7 @@ func split(ctx context.Context, r io.Reader) (<-chan string, <-chan error) {
 				}
 				if isRootBlockBeginning(l, sharpRoot) {
 					if len(block) != 0 {
+						verifPoint("split.send")
 						select {
 						case <-ctx.Done():
 							return
@@ -48,6 +49,7 @@ func split(ctx context.Context, r io.Reader) (<-chan string, <-chan error) {
 			sendErr(ctx, errc, err)
 			return
 		}
+		verifPoint("split.sendlast")
 		select {
 		case <-ctx.Done():
 			return
